@@ -47,6 +47,8 @@ def _class(items, ignorecase):
         elif op is C.CATEGORY:
             if av is C.CATEGORY_DIGIT:
                 parts.append(z3.Range('0', '9'))
+            elif av is C.CATEGORY_SPACE:
+                parts += [_char(ord(c)) for c in ' \t\n\r\x0b\x0c']      # ASCII white space
             else:
                 raise NotEncodable('category %s' % av)
         else:
@@ -150,7 +152,7 @@ def equivalent(r1, r2, timeout_ms=60000, alphabet=None):
     sol.add(z3.Xor(z3.InRe(s, r1), z3.InRe(s, r2)))
     r = sol.check()
     if r == z3.sat:
-        return 'sat', sol.model()[s].as_string()
+        return 'sat', unescape(sol.model()[s].as_string())
     return str(r), None
 
 
@@ -164,7 +166,74 @@ def members(r, n, extra=None, timeout_ms=10000):
         sol.add(extra(s))
     out = []
     while len(out) < n and sol.check() == z3.sat:
-        v = sol.model()[s].as_string()
-        out.append(v)
-        sol.add(s != z3.StringVal(v))
+        m = sol.model()[s]
+        out.append(unescape(m.as_string()))
+        sol.add(s != m)
     return out
+
+
+def unescape(v):
+    """z3 prints non-ASCII characters of a string value as \\u{hex}"""
+    return re.sub(r'\\u\{([0-9a-fA-F]+)\}', lambda m: chr(int(m.group(1), 16)), v)
+
+
+def finite_members(pattern, cap=200):
+    """the strings of a pattern whose language is finite up to white-space runs (each \\s+ is written as one blank; optional
+    parts are expanded both ways); None when the pattern has an unbounded or unsupported construct.  Syntactic enumeration of
+    the real pattern source -- membership of every returned string is re-checked with the z3 term by the caller."""
+    tree = sre_parse.parse(prepare(pattern))
+
+    def walk(items):
+        res = ['']
+        for op, av in items:
+            if op is C.AT:
+                continue
+            if op is C.LITERAL:
+                res = [r + chr(av) for r in res]
+            elif op is C.IN:
+                if len(av) == 1 and av[0] == (C.CATEGORY, C.CATEGORY_SPACE):
+                    res = [r + ' ' for r in res]
+                else:
+                    cs = []
+                    for o2, a2 in av:
+                        if o2 is C.LITERAL:
+                            cs.append(chr(a2))
+                        else:
+                            return None
+                    res = [r + c for r in res for c in cs]
+            elif op is C.BRANCH:
+                subs = []
+                for alt in av[1]:
+                    e = walk(alt)
+                    if e is None:
+                        return None
+                    subs += e
+                res = [r + x for r in res for x in subs]
+            elif op is C.SUBPATTERN:
+                e = walk(av[3])
+                if e is None:
+                    return None
+                res = [r + x for r in res for x in e]
+            elif op in (C.MAX_REPEAT, C.MIN_REPEAT):
+                lo, hi, body = av
+                e = walk(body)
+                if e is None:
+                    return None
+                if len(body) == 1 and body[0][0] is C.IN and body[0][1] == [(C.CATEGORY, C.CATEGORY_SPACE)] and lo >= 1:
+                    res = [r + ' ' for r in res]
+                elif hi is not C.MAXREPEAT and hi <= 2:
+                    opts = []
+                    for k in range(lo, hi + 1):
+                        layer = ['']
+                        for _ in range(k):
+                            layer = [a + b for a in layer for b in e]
+                        opts += layer
+                    res = [r + x for r in res for x in opts]
+                else:
+                    return None
+            else:
+                return None
+            if len(res) > cap:
+                return None
+        return res
+    return walk(list(tree))
